@@ -97,19 +97,20 @@ pub fn check(c: &Case, st: &mut Stats) -> Check {
     st.class(if c.scn.cfg.deny.is_some() { "deny:present" } else { "deny:absent" });
     let mut deepest: Option<&'static str> = None;
     let mut result = Ok(());
-    for (i, s) in c.steps.iter().enumerate() {
-        let (f, o) = w.send(s);
+    'steps: for (i, s) in c.steps.iter().enumerate() {
         st.class(&format!("step:{}", s.kind()));
-        if let Some(l) = reaches_l3(&c.scn.cfg, &f) {
-            deepest = Some(l);
-            st.class(&format!("reached:{}", l));
-        }
-        if f.len() < 14 {
-            st.class("frame<14B");
-        }
-        if let Out::Panic(p) = &o {
-            result = Err(Failure::keyed(p.key(), format!("panic at {}:{} \"{}\" on frame #{} ({}): {}", p.file, p.line, p.msg, i, s.kind(), hex(&f[..f.len().min(200)]))));
-            break;
+        for (f, o) in w.send_all(s) {
+            if let Some(l) = reaches_l3(&c.scn.cfg, &f) {
+                deepest = Some(l);
+                st.class(&format!("reached:{}", l));
+            }
+            if f.len() < 14 {
+                st.class("frame<14B");
+            }
+            if let Out::Panic(p) = &o {
+                result = Err(Failure::keyed(p.key(), format!("panic at {}:{} \"{}\" on frame #{} ({}): {}", p.file, p.line, p.msg, i, s.kind(), hex(&f[..f.len().min(200)]))));
+                break 'steps;
+            }
         }
     }
     st.frames(w.sent);
